@@ -1,11 +1,11 @@
 SPECIFICATION LiveSpec
 CONSTANTS
-  IH = 1
+  IH = 2
   MaxH = 4
   MaxFails = 2
   MonotoneCursor = TRUE
   RetryOnError = TRUE
-  RestartAtTop = FALSE
+  RestartAtTop = TRUE
   MaxRestarts = 2
 INVARIANTS CursorAboveBase NothingSkipped AppliedOnlyHanded
 PROPERTIES AllHandedEventually AllAppliedEventually
